@@ -937,6 +937,9 @@ func runC05(r *Run) {
 	wr := r.Rule("C05.wire", "Decode and everything it calls never write a byte of the message (Raw and views of it): the CRC is computed over the bytes as received", 1)
 	checkDecodeReadOnly(r, wr)
 	wr.Done()
+	// the checked FINGERPRINT is an attribute of this message: Decode empties the list on every path (shared with C08); Add leaves the attribute it adds as the last bytes of Raw (shared with C03)
+	r.Borrow("C08", map[string]string{"C08.reset": "C05.decodereset"})
+	r.Borrow("C03", map[string]string{"C03.add": "C05.rawend"})
 }
 
 // checkDecodeReadOnly: no byte write into message-derived storage in the closure of (*Message).Decode.
